@@ -13,6 +13,13 @@ Search: kernel_x86_long_LCD.s, generated dense kernels and ordinary kernels x ti
    {0, 1, 2, generous, -1}: wall time, flag <=> some worker was SIGKILLed, warning <=> flag (CLI),
    reported LCDs subset of the untimed result with equal values, TP/CP unchanged, every worker
    joined before the shared list is read, no child process afterwards (/proc).
+Sequential branch (kernels below the threshold; harness/c19_seq.py): Model.Timeout.run_sequential under the
+   rule read off the source (SeqIgnoresTimeout = as shipped, SeqDeadlinePerPath = repaired) is replayed on runs
+   with a synthetic clock (the cut lands on a chosen path): flag, number of clock readings and the delivered
+   list -- which must be the prefix of networkx's own unrestricted enumeration -- agree; post() on the delivered
+   list = the dictionary.  Repaired tree: dense kernels of 20-49 lines in real time (search phase <= timeout +
+   one step, flag <=> a yielded path was dropped, every entry a genuine cycle of the graph, subset of the
+   untimed result, complete and unflagged when in time).  Shipped tree: the 40-line witness (known finding).
 """
 import json
 import os
@@ -21,6 +28,7 @@ import time
 
 import vlib
 import lcd_par
+import c19_seq
 import c16
 
 FINISH = dict(level="proof",
@@ -29,6 +37,9 @@ FINISH = dict(level="proof",
 
 K_SEQ = "kernel_dg.py:check_for_loopcarried_dep:sequential-branch-ignores-timeout"
 K_FLAG = "kernel_dg.py:check_for_loopcarried_dep:while-else-sets-timed_out-without-killing"
+K_STEP = "kernel_dg.py:check_for_loopcarried_dep:sequential-search-step-without-yield-unbounded"
+SEQ_DRIVER = os.path.join(vlib.VERIF, "harness", "c19_seq.py")
+STEP_US = 500000        # us: the longest admissible distance of two clock readings of the sequential search ("one step")
 OVERHEAD = 4.0          # s: manager start, forks, last 0.2 s sleep, kills, joins
 TPCP_REF = {}
 PER_PATH = 0.0006       # s per delivered path: list(ListProxy) is one round trip per element
@@ -68,41 +79,102 @@ def kernels(ctx):
     return out
 
 
-# ------------------------------------------------------------------ which flag rule does the tree under test implement?
-def flag_rule_in_source():
-    """Reads check_for_loopcarried_dep with ast: where, inside the `while ... else:` branch, is
-    `self.timed_out = True`?  Directly in the branch -> "FlagOnExhaustion" (as shipped); only inside an
-    `if <x>.is_alive():` of the kill loop -> "FlagOnKill" (repaired).  Anything else -> None (fail closed)."""
+# ------------------------------------------------------------------ which rules does the tree under test implement?
+def _sets_flag(n):
+    import ast
+    return (isinstance(n, ast.Assign) and len(n.targets) == 1 and isinstance(n.targets[0], ast.Attribute)
+            and n.targets[0].attr == "timed_out" and isinstance(n.targets[0].value, ast.Name) and n.targets[0].value.id == "self"
+            and isinstance(n.value, ast.Constant) and n.value.value is True)
+
+
+def _branches():
+    """(statements of the parallel branch, statements of the sequential branch) of check_for_loopcarried_dep:
+    the `if klen >= self.INSTRUCTION_THRESHOLD:` ... `else:` of the function; None if it is not found exactly once."""
     import ast
     src = open(os.path.join(vlib.REPO, "osaca", "semantics", "kernel_dg.py")).read()
     fns = [n for n in ast.walk(ast.parse(src)) if isinstance(n, ast.FunctionDef) and n.name == "check_for_loopcarried_dep"]
     if len(fns) != 1:
         return None
+    ifs = [n for n in ast.walk(fns[0]) if isinstance(n, ast.If) and n.orelse
+           and any(isinstance(a, ast.Attribute) and a.attr == "INSTRUCTION_THRESHOLD" for a in ast.walk(n.test))]
+    if len(ifs) != 1:
+        return None
+    everywhere = [n for n in ast.walk(fns[0]) if _sets_flag(n)]
+    inside = [n for b in (ifs[0].body, ifs[0].orelse) for st in b for n in ast.walk(st) if _sets_flag(n)]
+    if len(everywhere) != len(inside):      # the flag is also set outside the two branches: not a shape we know
+        return None
+    return ifs[0].body, ifs[0].orelse
 
-    def sets_flag(n):
-        return (isinstance(n, ast.Assign) and len(n.targets) == 1 and isinstance(n.targets[0], ast.Attribute)
-                and n.targets[0].attr == "timed_out" and isinstance(n.targets[0].value, ast.Name) and n.targets[0].value.id == "self"
-                and isinstance(n.value, ast.Constant) and n.value.value is True)
-    all_sets = [n for n in ast.walk(fns[0]) if sets_flag(n)]
-    whiles = [n for n in ast.walk(fns[0]) if isinstance(n, ast.While) and n.orelse]
+
+def flag_rule_in_source():
+    """Where, inside the `while ... else:` branch of the parallel search, is `self.timed_out = True`?
+    Directly in the branch -> "FlagOnExhaustion" (as shipped); only inside an `if <x>.is_alive():` of the kill
+    loop -> "FlagOnKill" (repaired).  Anything else -> None (fail closed)."""
+    import ast
+    br = _branches()
+    if br is None:
+        return None
+    par = br[0]
+    all_sets = [n for st in par for n in ast.walk(st) if _sets_flag(n)]
+    whiles = [n for st in par for n in ast.walk(st) if isinstance(n, ast.While) and n.orelse]
     if len(whiles) != 1 or len(all_sets) != 1:
         return None
     orelse = whiles[0].orelse
-    if any(sets_flag(n) for n in orelse):
+    if any(_sets_flag(n) for n in orelse):
         return "FlagOnExhaustion"
     for loop in orelse:
         if not isinstance(loop, ast.For):
             continue
         for st in loop.body:
             if (isinstance(st, ast.If) and not st.orelse and isinstance(st.test, ast.Call) and isinstance(st.test.func, ast.Attribute)
-                    and st.test.func.attr == "is_alive" and not st.test.args and any(sets_flag(n) for n in st.body)
+                    and st.test.func.attr == "is_alive" and not st.test.args and any(_sets_flag(n) for n in st.body)
                     and any(isinstance(c, ast.Call) and isinstance(c.func, ast.Attribute) and c.func.attr in ("kill", "terminate")
                             for b in st.body for c in ast.walk(b))):
                 return "FlagOnKill"
     return None
 
 
-RULE = {"v": "FlagOnExhaustion"}
+def seq_rule_in_source():
+    """The sequential branch: no mention of the timeout, the clock or the flag -> "SeqIgnoresTimeout" (as shipped).
+    Exactly one loop over the yielded paths whose body is `if <test naming timeout and calling time.time()>:
+    self.timed_out = True; break` followed by `all_paths.append(<loop variable>)`, and no other flag assignment or
+    clock test -> "SeqDeadlinePerPath" (repaired).  Anything else -> None (fail closed)."""
+    import ast
+    br = _branches()
+    if br is None:
+        return None
+    seq = br[1]
+    nodes = [n for st in seq for n in ast.walk(st)]
+    names = {n.id for n in nodes if isinstance(n, ast.Name)}
+    sets = [n for n in nodes if _sets_flag(n)]
+    clock_calls = [n for n in nodes if isinstance(n, ast.Call) and isinstance(n.func, ast.Attribute) and n.func.attr == "time"]
+    if not sets and not clock_calls and "timeout" not in names and not any(isinstance(n, ast.Break) for n in nodes):
+        return "SeqIgnoresTimeout"
+    if len(sets) != 1:
+        return None
+    good = []
+    for loop in nodes:
+        if not isinstance(loop, ast.For) or loop.orelse or len(loop.body) != 2 or not isinstance(loop.target, ast.Name):
+            continue
+        test, app = loop.body
+        if not (isinstance(test, ast.If) and not test.orelse and len(test.body) == 2 and _sets_flag(test.body[0]) and isinstance(test.body[1], ast.Break)):
+            continue
+        tn = list(ast.walk(test.test))
+        if not (any(isinstance(n, ast.Name) and n.id == "timeout" for n in tn)
+                and any(isinstance(n, ast.Call) and isinstance(n.func, ast.Attribute) and n.func.attr == "time" for n in tn)):
+            continue
+        if not (isinstance(app, ast.Expr) and isinstance(app.value, ast.Call) and isinstance(app.value.func, ast.Attribute)
+                and app.value.func.attr == "append" and len(app.value.args) == 1 and isinstance(app.value.args[0], ast.Name)
+                and app.value.args[0].id == loop.target.id):
+            continue
+        good.append(loop)
+    # one such loop; the only clock readings are start_time and the one in its test
+    if len(good) == 1 and len(clock_calls) == 2:
+        return "SeqDeadlinePerPath"
+    return None
+
+
+RULE = {"v": "FlagOnExhaustion", "seq": "SeqIgnoresTimeout"}
 
 
 # ------------------------------------------------------------------ poll-loop trace -> model input
